@@ -40,6 +40,8 @@ pub enum Cond {
     ActorAt(usize, usize),
     /// at least n messages with this type byte received (or closed)
     CodeOrClosed(u8, usize),
+    /// a ReadyForQuery arrived after this actor's last send (or closed)
+    ReplyOrClosed,
 }
 
 #[derive(Clone, Debug)]
@@ -63,6 +65,8 @@ pub enum Step {
     Connect { user: String, db: String, password: Option<String>, params: Vec<(String, String)> },
     /// open a connection only
     Open,
+    /// log in again if the connection is gone (no-op otherwise)
+    Reconnect { user: String, db: String, password: Option<String> },
     Send { bytes: Vec<u8>, label: String },
     /// answer the MD5 challenge received on this connection (dynamic bytes)
     SendPassword { user: String, password: String },
@@ -93,6 +97,7 @@ impl Step {
         match self {
             Step::Connect { user, db, .. } => format!("connect({}@{})", user, db),
             Step::Open => "open".into(),
+            Step::Reconnect { .. } => "reconnect-if-needed".into(),
             Step::Send { label, .. } => format!("send({})", label),
             Step::SendPassword { .. } => "send(password)".into(),
             Step::SendDyn(l, _) => format!("send-dyn({})", l),
@@ -229,6 +234,7 @@ pub struct ClientRt {
     writer: Option<tokio::task::JoinHandle<()>>,
     pub stale_key: Option<(i32, i32)>,
     pub stale_salt: Option<[u8; 4]>,
+    pub z_at_send: usize,
     pub conn_serial: usize,
     pub stop_reading: Arc<AtomicBool>,
 }
@@ -407,6 +413,8 @@ impl World {
     }
 
     pub fn client_send(&mut self, actor: usize, bytes: Vec<u8>) {
+        let z = self.clients[actor].buf.lock().z;
+        self.clients[actor].z_at_send = z;
         self.log(Rec::CSend { c: actor, bytes: bytes.clone() });
         if let Some(tx) = &self.clients[actor].tx {
             let _ = tx.send(Cmd::Write(bytes));
@@ -462,6 +470,10 @@ impl World {
                 let b = self.clients[actor].buf.lock();
                 b.eof || b.msgs.iter().filter(|m| m.code == *code).count() >= *n
             }
+            Cond::ReplyOrClosed => {
+                let b = self.clients[actor].buf.lock();
+                b.eof || b.z > self.clients[actor].z_at_send
+            }
         }
     }
 
@@ -477,7 +489,7 @@ impl World {
             let eof = self.clients[a].open && self.clients[a].buf.lock().eof;
             match &steps[i] {
                 Step::Wait(c) => {
-                    let is_client_cond = matches!(c, Cond::Z(_) | Cond::Msgs(_) | Cond::ZOrClosed(_) | Cond::Closed | Cond::CodeOrClosed(..));
+                    let is_client_cond = matches!(c, Cond::Z(_) | Cond::Msgs(_) | Cond::ZOrClosed(_) | Cond::Closed | Cond::CodeOrClosed(..) | Cond::ReplyOrClosed);
                     if self.cond_ok(a, c) {
                         self.idx[a] += 1;
                         continue;
@@ -515,7 +527,7 @@ impl World {
     fn skip_to_reconnect(&mut self, a: usize) {
         let steps = &self.scenario.actors[a].steps;
         let mut i = self.idx[a];
-        while i < steps.len() && !matches!(steps[i], Step::Connect { .. } | Step::Open) {
+        while i < steps.len() && !matches!(steps[i], Step::Connect { .. } | Step::Open | Step::Reconnect { .. }) {
             i += 1;
         }
         if self.clients[a].open {
@@ -607,6 +619,13 @@ impl World {
                 self.login(actor, &user, &db, password.as_deref(), &params).await;
             }
             Step::Open => self.open_client(actor),
+            Step::Reconnect { user, db, password } => {
+                let alive = self.clients[actor].open && !self.clients[actor].buf.lock().eof;
+                if !alive {
+                    self.clients[actor].open = false;
+                    self.login(actor, &user, &db, password.as_deref(), &[]).await;
+                }
+            }
             Step::Send { bytes, .. } => self.client_send(actor, bytes),
             Step::SendPassword { user, password } => {
                 let salt = self.clients[actor].buf.lock().salt.unwrap_or([0; 4]);
@@ -696,8 +715,9 @@ impl World {
                     }));
                 }
             }
-            for (a, (reason, _)) in pool.get_bans() {
-                bans.push(serde_json::json!({"db": id.db, "user": id.user, "host": a.host, "reason": format!("{:?}", reason)}));
+            for (a, (reason, ts)) in pool.get_bans() {
+                bans.push(serde_json::json!({"db": id.db, "user": id.user, "host": a.host, "role": a.role.to_string(), "reason": format!("{:?}", reason),
+                    "since_s": ts.timestamp() - pgcat::verif::clock::BASE_EPOCH_SECS, "ban_time": pool.settings.ban_time}));
             }
         }
         let mut servers: Vec<serde_json::Value> = pgcat::stats::get_server_stats()
@@ -731,7 +751,16 @@ impl World {
             .collect();
         show_pools.sort_by_key(|v| v.to_string());
         let csm = self.csm.lock().len();
-        let data = serde_json::json!({"pools": pools, "bans": bans, "servers": servers, "clients": clients, "show_pools": show_pools, "csm": csm});
+        let backends: Vec<serde_json::Value> = {
+            let n = self.net.lock();
+            n.servers
+                .values()
+                .map(|s| serde_json::json!({"addr": s.addr, "accept": format!("{:?}", s.accept), "startup": format!("{:?}", s.startup), "faults": s.faults.iter().map(|f| format!("{:?}", f)).collect::<Vec<_>>()}))
+                .collect()
+        };
+        let now_s = pgcat::verif::clock::elapsed().as_secs();
+        let now_ms = pgcat::verif::clock::elapsed().as_millis() as u64;
+        let data = serde_json::json!({"pools": pools, "bans": bans, "servers": servers, "clients": clients, "show_pools": show_pools, "csm": csm, "backends": backends, "now_s": now_s, "now_ms": now_ms});
         self.log(Rec::Probe { data: data.to_string() });
     }
 
@@ -851,6 +880,7 @@ fn new_client_rt() -> ClientRt {
         writer: None,
         stale_key: None,
         stale_salt: None,
+        z_at_send: 0,
         conn_serial: 0,
         stop_reading: Arc::new(AtomicBool::new(false)),
     }
